@@ -107,11 +107,16 @@ def encDocs (opts : String) (docs : List (List XEv)) : Option (List (Bytes × St
       | (_, some _, _) => none
   go (visitorOf opts) docs []
 
-def parseDocs (docs : List Bytes) : Option (List (List Ev × String)) :=
+def parseDocs (mode : String) (docs : List Bytes) : Option (List (List Ev × String)) :=
   let rec go (p : Parse.P) (ds : List Bytes) (acc : List (List Ev × String)) : Option (List (List Ev × String)) :=
     match ds with
     | [] => some acc.reverse
     | d :: rest =>
+      if mode == "P" then
+        match Parse.parse { p with evs := [] } d with
+        | (p', none) => go p' rest ((Parse.events p', depthsP p') :: acc)
+        | (_, some _) => none
+      else
       match Parse.write { p with evs := [] } d with
       | (p', none) =>
         match Parse.finalize p' with
